@@ -36,9 +36,9 @@ CLAIMED = {
          "Seeded exploration of programs/inputs in simulated block contexts; the simulation contributes state and block-context variety and the proposer/validator agreement for these blocks.", LEDGER_NOTE, "3 C15"),
  "C12": ("exploration", "deterministic simulation with a corrupting peer: messages of all 19 kinds taken from the running simulated ledger, damaged at frame / payload / object level (incl. blocks and transactions assembled from decodable parts and re-signed by the legitimate proposer) and delivered through the real protoPeer.ReadMsg -> Decode -> IdenaGossipHandler.handle path, followed by the consensus loop's consumption (GetProposedBlock -> ValidateBlock, pending proposals, flip queue, AddBlock); oracle: no escaping panic, no hang, allocation per message within 64 x frame + 128 MiB, victim keeps following the chain",
          "Structure-aware mutation in context, not coverage-guided fuzzing: 'for every byte string' is sampled; allocation is measured by TotalAlloc growth and only the 'claims gigabytes' class is flagged; a panic recovered by TxPool.add's own gate counts as a reject.", "libp2p stream replaced by an in-memory byte queue; the consensus loop is replaced by the harness calling the same entry points; Flipper.writeLoop body run synchronously.", "3 C12"),
- "C16": ("exploration", "deterministic simulation of whole validation ceremonies (3-10 replicas, each running the real ValidationCeremony, Flipper and KeysPool for its own identity; simulated users; lossy gossip of flips, keys and packages; restarts; peer re-synchronisation) plus the lottery evaluated as a function over tape-drawn shard layouts under two map seeds; oracle: cross-replica and after-restart equality of the lottery, range / duplicate / quota / non-empty-long-list invariants on what the node hands to its user, assignment <=> key recipient, decryption by exactly the recipients (real packages, real node keys)",
+ "C16": ("exploration", "deterministic simulation of whole validation ceremonies (3-10 replicas, each running the real ValidationCeremony, Flipper and KeysPool for its own identity; with small shard size limits the second of two consecutive ceremonies runs in 2-4 shards; simulated users; lossy gossip of flips, keys and packages; restarts; peer re-synchronisation) plus the lottery evaluated as a function over tape-drawn shard layouts under two map seeds; oracle: cross-replica and after-restart equality of the lottery, range / duplicate / quota / non-empty-long-list invariants on what the node hands to its user, assignment <=> key recipient, decryption by exactly the recipients (real packages, real node keys)",
          "The 'for all sizes' part of the property is a pure function of its inputs: it is sampled (0-300 candidates), not proved; the simulator contributes cross-replica agreement under different map seeds, restore after restart, and key delivery under message loss.", "Users, gossip transport and the consensus loop are simulated; identities allocated in genesis have no public key in the state, so key delivery is judged for identities created by invitation + activation.", "3 C16"),
- "C17": ("exploration", "deterministic simulation of whole validation ceremonies: replicas differ in map seed, zone, clock skew, arrival of transactions / keys, restarts inside every phase, absence with catch-up from blocks only, first evaluation at proposal vs validation vs insertion (cache hit), competing block at the finishing height validated first, evidence and long-answer transactions with payloads made up by a participant that does not run the reference client; oracle: no panic and no allocation out of proportion while the finishing block is built or validated, every replica accepts the block that finishes the validation (equal roots), equal captured epoch results, and per-identity rules judged from on-chain facts only",
+ "C17": ("exploration", "deterministic simulation of whole validation ceremonies (in one shard, or - second ceremony under small shard size limits - in 2-4 shards): replicas differ in map seed, zone, clock skew, arrival of transactions / keys, restarts inside every phase, absence with catch-up from blocks only, first evaluation at proposal vs validation vs insertion (cache hit), competing block at the finishing height validated first, evidence and long-answer transactions with payloads made up by a participant that does not run the reference client; oracle: no panic and no allocation out of proportion while the finishing block is built or validated, every replica accepts the block that finishes the validation (equal roots), equal captured epoch results, and per-identity rules judged from on-chain facts only",
          "Decision-boundary score tuples are sampled through drawn user accuracies, not enumerated; 'missed the session' is taken in its narrowest on-chain sense; validations in which nobody is validated (the protocol's fail-safe keeps every identity) are excluded from the per-identity rules.", "Users are simulated (answers against a hidden truth per flip, through the node's own SubmitShortAnswers / SubmitLongAnswers); gossip and the consensus loop are simulated; three goroutines that block on real channels or tickers are replaced by their bodies run after every block.", "3 C17"),
  "C18": ("exploration", "seeded value generation observed at the codecs (zero / nil optionals, maximal integers, empty and long byte strings for ~50 wire and storage types: encode, decode, re-encode, then every exported leaf field changed in turn must change the encoding and, for the six signed types, the recovered signer) plus seam taps over simulated ledger runs with contracts (blocks, transactions, certificates, receipts, identity diffs as they cross the simulated wire, and every raw value of the state and identity trees on the simulated disk)",
          "The weakest use of the technique in this submission and labelled so: the quantifier is over inputs; the simulator contributes only in-context values. Fields that are not encoded on the pinned tree are listed in c18_baseline.json (one legacy field); whether every behaviour-relevant field is encoded is not decided here.", "Part (b) uses the ledger scenario's stubs.", "3 C18"),
